@@ -15,7 +15,10 @@ CONFIGS = {
     "default": (["-p", "scylla"], "", None, CRATES),
     "full": (["-p", "scylla", "--features", "scylla/full-serialization,scylla/metrics"], "", None, CRATES),
     "unstable": (["-p", "scylla", "--features", "scylla/unstable-testing"], "--cfg scylla_unstable", None, CRATES),
+    # the derive family: a harness crate whose GENERATED impls are analysed (C16)
+    "family": ([], "", os.path.join(VERIF, "derive_family"), ["derive_family"]),
 }
+FAMILY_DIR = os.path.join(VERIF, "derive_family")
 
 
 class ToolFailure(Exception):
@@ -76,7 +79,7 @@ def facts_dir(config):
     try:
         if not os.path.exists(DRIVER) or os.path.getmtime(DRIVER) < os.path.getmtime(os.path.join(DRIVER_DIR, "src", "main.rs")):
             build_driver()
-        key, nfiles = tree_hash()
+        key, nfiles = tree_hash([FAMILY_DIR] if config == "family" else ())
         out = os.path.join(WORK, "facts", config, key)
         stamp = os.path.join(out, "OK")
         if os.path.exists(stamp):
@@ -93,8 +96,13 @@ def facts_dir(config):
         fp = os.path.join(target, "debug", ".fingerprint")
         if os.path.isdir(fp):
             for d in os.listdir(fp):
-                if any(d.startswith(m + "-") for m in MEMBERS):
+                if any(d.startswith(m + "-") for m in MEMBERS + ["derive_family"]):
                     shutil.rmtree(os.path.join(fp, d), ignore_errors=True)
+        if config == "family":
+            # the harness crate resolves its dependencies exactly like the repository does
+            cargo_lock = os.path.join(REPO, "Cargo.lock")
+            if os.path.exists(cargo_lock):
+                shutil.copyfile(cargo_lock, os.path.join(FAMILY_DIR, "Cargo.lock"))
         run_id = "%s-%d" % (key, int(time.time() * 1000))
         e = env_base()
         e["LD_LIBRARY_PATH"] = sysroot() + "/lib" + (":" + e["LD_LIBRARY_PATH"] if e.get("LD_LIBRARY_PATH") else "")
@@ -105,6 +113,9 @@ def facts_dir(config):
         e["MIRFACTS_RUN_ID"] = run_id
         e["CARGO_TARGET_DIR"] = target
         t0 = time.time()
+        if config == "family":
+            # in the harness workspace only derive_family is a member: the driver must wrap it, the repo crates build plainly
+            pass
         r = subprocess.run(["cargo", "+nightly", "check", "--offline", "--lib"] + args, cwd=cwd or REPO, env=e,
                            stdout=subprocess.PIPE, stderr=subprocess.STDOUT, text=True)
         if r.returncode != 0:
